@@ -403,6 +403,60 @@ AREAS = [
                    'origin->FromZone': ('from_zone', 'ptr'), 'origin->FromZone->CanAccessObject(checkable)': Bb('can_access'),
                    'checkable->IsAcknowledged()': ('src_checkable_is_acknowledged now ack_raw ack_expiry', 'bool')}),
     ]),
+    # ---------------------------------------------------------------------------------------- round 2: C05 downtime start / removal / timers
+    dict(area='dt', requires=['Icv.Facts.Facts_enums', 'Icv.Src.XlPrelude', 'Icv.Ck.CkFull', 'Icv.Facts.Facts_fn_ck'], items=[
+        dict(glue='downtime_events2', props=['C05'], deps=['downtime_trigger_downtime'],
+             doc='effects of Downtime::Start / RemoveDowntime / the two timer handlers, in program order; TriggerDowntime(t) on this object as a '
+                 'state transformer over trigger_time built from the TRANSLATED TriggerDowntime (its own effects are kept as one event)',
+             text='Definition xdt_name := Z.\n'
+                  'Inductive xs_ev := XsStarted | XsTrigger (t : Z) (inner : list xdt_ev) | XsRemoveChild (name : Z) | XsRemovalInfo | XsThrow\n'
+                  '  | XsRemove (name : Z) (children : bool) (reason : Z).\n'
+                  'Definition xs_trigger (now : Z) (fixed : bool) (start_time end_time trigger_time duration : Z) (triggers : list Z) (dt_exists : Z -> bool)\n'
+                  '  (t : Z) (evs : list xs_ev) : Z * list xs_ev :=\n'
+                  "  let '(tr, inner) := src_downtime_trigger_downtime now fixed start_time end_time trigger_time duration t triggers dt_exists in\n"
+                  '  (tr, evs ++ [XsTrigger t inner]).\n'),
+        # Downtime::Start: the two trigger decisions; CanBeTriggered() is read AFTER the first TriggerDowntime may have written trigger_time
+        dict(name='downtime_start_trigger', func='Downtime::Start', file='lib/icinga/downtime.cpp', props=['C05'],
+             region=(r'if\s*\(\s*!GetFixed\(\)\s*&&\s*checkable->GetProblem\(\)\s*\)', r'\s*\Z'), outputs=[],
+             inputs=DT_IN + [('entry_time', 'Z'), ('problem', 'bool'), ('lsc', 'Z'), ('triggers', 'list Z'), ('dt_exists', 'Z -> bool')],
+             ret='void', dummy='(0, nil)', aliases={'checkable': 'GetCheckable()'},
+             state=[('$trigger_time', 'trigger_time', 'Z'), ('$events', '(@nil xs_ev)', 'list xs_ev')],
+             calls_st={'TriggerDowntime': dict(term='xs_trigger now fixed start_time end_time {$trigger_time} duration triggers dt_exists {0} {$events}',
+                                               updates=['$trigger_time', '$events'], ret=None, args=['Z'])},
+             emits={'OnDowntimeStarted': ('$events', 'XsStarted', [None])},
+             fns={'std::fmax': ('Z.max', ['Z', 'Z'], 'Z')},
+             bind=dict({k: v for k, v in DT_BIND.items() if k != 'GetTriggerTime()'},
+                       **{'GetEntryTime()': Zb('entry_time'), 'GetCheckable()->GetProblem()': Bb('problem'), 'GetCheckable()->GetLastStateChange()': Zb('lsc'),
+                          'CanBeTriggered()': ('src_downtime_can_be_triggered ' + DT_ARGS.replace('trigger_time', '{$trigger_time}'), 'bool')})),
+        # Downtime::RemoveDowntime up to the deletion: silent return, refusal (exception), recursion into the children, removal info
+        dict(name='downtime_remove_pre', func='Downtime::RemoveDowntime', file='lib/icinga/downtime.cpp', props=['C05'],
+             region=(r'Downtime::Ptr\s+downtime\s*=\s*Downtime::GetByName\(id\);', r'Array::Ptr\s+errors\s*='), region_exit=True, outputs=[],
+             inputs=[('found', 'bool'), ('is_api', 'bool'), ('owned', 'bool'), ('include_children', 'bool'), ('reason', 'Z'), ('children', 'list xdt_name')],
+             ret='void', rcoq='bool * list xs_ev', dummy='(false, nil)', abort='(true, [XsThrow])', abort_stmts=[r'^BOOST_THROW_EXCEPTION\('],
+             params={'includeChildren': Bb('include_children'), 'removalReason': Zb('reason')},
+             state=[('$events', '(@nil xs_ev)', 'list xs_ev')],
+             lists={'Downtime::GetByName(id)->GetChildren()': ('children', 'xdt_name')},
+             emits={'Downtime::RemoveDowntime': ('$events', 'XsRemoveChild {0}', ['Z', None, None, None]),
+                    'downtime->SetRemovalInfo': ('$events', 'XsRemovalInfo', [None, None])},
+             bind={'Downtime::GetByName(id)': ('found', 'ptr'), 'Downtime::GetByName(id)->GetPackage()!="_api"': ('negb is_api', 'bool'),
+                   'Downtime::GetByName(id)->GetConfigOwner().IsEmpty()': ('negb owned', 'bool'), 'child->GetName()': Zb('child')}),
+        # one iteration of DowntimesStartTimerHandler / DowntimesOrphanedTimerHandler (the attributes are those of the downtime at that moment)
+        dict(name='downtime_start_timer_iter', func='Downtime::DowntimesStartTimerHandler', file='lib/icinga/downtime.cpp', props=['C05'],
+             region=(r'if\s*\(\s*downtime->IsActive\(\)\s*&&', r'\}\s*\Z'), outputs=[],
+             inputs=DT_IN + [('entry_time', 'Z'), ('active', 'bool')], ret='void', dummy='nil', aliases={'downtime': 'downtime'},
+             state=[('$events', '(@nil xs_ev)', 'list xs_ev')],
+             emits={'OnDowntimeStarted': ('$events', 'XsStarted', [None]), 'downtime->TriggerDowntime': ('$events', 'XsTrigger {0} nil', ['Z'])},
+             fns={'std::fmax': ('Z.max', ['Z', 'Z'], 'Z')},
+             bind={'downtime->IsActive()': Bb('active'), 'downtime->GetFixed()': Bb('fixed'), 'downtime->GetStartTime()': Zb('start_time'),
+                   'downtime->GetEntryTime()': Zb('entry_time'),
+                   'downtime->CanBeTriggered()': ('src_downtime_can_be_triggered ' + DT_ARGS, 'bool')}),
+        dict(name='downtime_orphaned_timer_iter', func='Downtime::DowntimesOrphanedTimerHandler', file='lib/icinga/downtime.cpp', props=['C05'],
+             region=(r'if\s*\(\s*downtime->IsActive\(\)\s*&&', r'\}\s*\Z'), outputs=[],
+             inputs=[('name', 'Z'), ('active', 'bool'), ('valid_owner', 'bool')], ret='void', dummy='nil', aliases={'downtime': 'downtime'},
+             state=[('$events', '(@nil xs_ev)', 'list xs_ev')],
+             emits={'RemoveDowntime': ('$events', 'XsRemove {0} {1} {2}', ['Z', 'bool', 'Z'])},
+             bind={'downtime->IsActive()': Bb('active'), 'downtime->HasValidConfigOwner()': Bb('valid_owner'), 'downtime->GetName()': Zb('name')}),
+    ]),
     # ---------------------------------------------------------------------------------------- C18 (tracked, outside the subset today)
     dict(area='perm', requires=['Icv.Src.XlPrelude'], items=[
         # builds Expression objects with `new`, writes through an out-parameter: not translatable; listed so that the evidence
@@ -416,7 +470,8 @@ AREAS = [
 ENUM_SOURCES = [('lib/icinga/checkresult.ti', ['HostState', 'ServiceState', 'StateType'], 'f_'),
                 ('lib/icinga/notification.hpp', ['NotificationFilter', 'NotificationType'], 'f_'),
                 ('lib/icinga/checkable.ti', ['AcknowledgementType'], 'f_'),
-                ('lib/icinga/checkable.hpp', ['DependencyType'], 'fx_')]     # f_: defined in Facts_enums; fx_: defined in Facts_fn_enums
+                ('lib/icinga/checkable.hpp', ['DependencyType'], 'fx_'),
+                ('lib/icinga/downtime.hpp', ['DowntimeRemovalReason'], 'fx_')]     # f_: defined in Facts_enums; fx_: defined in Facts_fn_enums
 
 
 def run(rd, emit, log, enum_values, ti_default):
